@@ -132,6 +132,21 @@ class Ctx:
         self.obligations.append(ob)
         return ob
 
+    def oblige_from(self, name, hyps, cond, kind='aux', meta=None, then_assume=True):
+        """Obligation with an explicit (small) set of hypotheses, each of which must already be a fact of this
+        path (an element of the path condition, or a conjunction of such) - sound: fewer hypotheses."""
+        hs = [simp(to_bool(h)) for h in hyps]
+        for i, h in enumerate(hs):
+            if not any(h.eq(p) for p in self.pc):
+                # the hypothesis is not literally a fact of this path: prove it from the full path condition first
+                self.obligations.append(Obligation('(side condition %d of) %s' % (i, name), list(self.pc), h, kind='aux',
+                                                   hyp_kinds=list(self.pc_kinds)))
+        ob = Obligation(name, hs, simp(to_bool(cond)), kind=kind, meta=meta, hyp_kinds=['def'] * len(hs))
+        self.obligations.append(ob)
+        if then_assume:
+            self.assume(cond, kind='def')
+        return ob
+
     def cut(self, name, cond, meta=None):
         """Cut rule: oblige a fact at this point, then use it as an assumption."""
         ob = self.oblige(name, cond, kind='aux', meta=meta)
@@ -141,6 +156,16 @@ class Ctx:
     # ---- transcendental functions (A-TRIG / A-EXP / sqrt)
     def _key(self, e):
         return e.get_id() if hasattr(e, 'get_id') else ('c', e)
+
+    def _poly_key(self, e):
+        """canonical key of a polynomial term (expanded, monomials sorted); falls back to the term id"""
+        try:
+            import sympy
+            from .ring import _conv
+            table = self.cache.setdefault(('polytable',), {})
+            return ('poly', str(sympy.expand(_conv(e, table))))
+        except Exception:
+            return self._key(e)
 
     def sqrt(self, x):
         """sqrt over the reals: r >= 0 and r*r == x (caller has dealt with x < 0)."""
@@ -152,7 +177,8 @@ class Ctx:
                 return r
             x = Sym(to_z3_num(x, True))
         e = simp(to_z3_num(x, True))
-        k = ('sqrt', self._key(e))
+        # key on the sum-of-monomials normal form, so that equal polynomials share one sqrt term
+        k = ('sqrt', self._poly_key(e))
         if k in self.cache:
             return self.cache[k]
         r = self.fresh('sqrt', 'real')
